@@ -241,7 +241,8 @@ class C16(Check):
                    "two outputs are equal terms, that Y equals the mean of the returned runs, and returns witnesses that a different stream "
                    "changes the output.  A frozen distribution holds a REFERENCE to the global generator (a deep copy of it is a detached snapshot); one "
                    "unit replays the history 'two random parameters, later one fixed by a partial update'.  Prime iteration counts (101; 1009 thorough) "
-                   "make any block-wise averaging of the mean visible.")
+                   "make any block-wise averaging of the mean visible.  One tau-leap unit runs with a fixed leap size set on the model (symbolic pre_tau): the "
+                   "setting must still be in force after the runs.")
     stubs = ["numpy global RNG -> symbolic stream keyed by seed", "np.random.RandomState() -> fresh unconstrained stream",
              "rv_frozen.rvs -> draws from the generator the frozen distribution holds: a reference to the global stream (scipy's default); a deep copy of it is a detached snapshot",
              "scipy integrators by contract; flows named by (f at t0, x0, t0): same ODE and initial condition => same flow",
